@@ -994,7 +994,7 @@ func genTask(r *prng.R, pool *docPool, idx int, theme string) TaskProg {
 			if t.WFaults == nil {
 				t.WFaults = make([]*simio.WriteFault, len(t.Writers))
 			}
-			t.WFaults[i] = &simio.WriteFault{Offset: r.PickInt(0, 1, 100, 1000), Kind: simio.WriteFaultKinds[r.Intn(len(simio.WriteFaultKinds))], Short: r.Bool(0.5)}
+			t.WFaults[i] = &simio.WriteFault{Offset: r.PickInt(0, 1, 100, 1000, 1030, 1200, 1500, 3000, 10000), Kind: simio.WriteFaultKinds[r.Intn(len(simio.WriteFaultKinds))], Short: r.Bool(0.5)}
 		}
 	}
 	if theme == "samefile" && (t.Reader == "ssa-opts" || t.Reader == "ssa-cb") {
@@ -1037,7 +1037,7 @@ func genScenario(root *prng.R, pool *docPool, j int, lim c20Limits) C20Scenario 
 		if theme == "writers" {
 			t.Writers, t.WFaults = storm, nil
 			if i%2 == 0 && r.Bool(0.6) { // some of the storm's calls fail while the others succeed
-				t.WFaults = []*simio.WriteFault{{Offset: r.PickInt(0, 1, 100, 1000), Kind: simio.WriteFaultKinds[r.Intn(len(simio.WriteFaultKinds))]}, nil}
+				t.WFaults = []*simio.WriteFault{{Offset: r.PickInt(0, 1, 100, 1000, 1030, 1200, 1500, 3000, 10000), Kind: simio.WriteFaultKinds[r.Intn(len(simio.WriteFaultKinds))]}, nil}
 				t.PostOps = []api.Op{{Name: r.Pick("add", "removestyling", "optimize"), D: int64(time.Second)}}
 			}
 		}
